@@ -12,7 +12,7 @@ import (
 )
 
 func gen(t *rapid.T) peng.Case {
-	c := peng.GenProgram(t, peng.Bias{MinN: 3, MaxN: 6, MaxThreads: 8, MinOps: 6, MaxOps: 60, MaxMgrs: 1, Kinds: scen.AllKinds, Barriers: false,
+	c := peng.GenProgram(t, peng.Bias{MinN: 3, MaxN: 6, MaxThreads: 8, MinOps: 6, MaxOps: 60, MaxMgrs: 2, Kinds: scen.AllKinds, Barriers: false,
 		Cancel: true, MaxSleepUs: 6000, StreamItems: 3, AwaitProb: 2, ErrorNodes: true, FullQuorum: true, ReleaseModes: []string{"early", "early", ""}})
 	if c.Threads < 2 {
 		c.Threads = 2
@@ -39,7 +39,7 @@ func run(c peng.Case) vt.Verdict {
 func TestProp(t *testing.T) {
 	vt.Main(t, vt.Spec[peng.Case]{
 		ID:           "C05",
-		Rule:         "rapid-generated concurrent programs: one manager, 3-6 servers, up to 4 overlapping configurations, 2-8 threads issuing 6-60 calls of all kinds with unique tokens; handlers release at once and answer after generated delays up to 6 ms while calls carry cancellations/deadlines of 1 us - 5 ms (replies arrive long after the call ended), in half of the cases seeded jitter at the statement-level yield points of the instrumented runtime; oracle: every reply shown to any quorum function and every RPC result carries the call's own token, sits under the node that produced it and equals what that handler produced (stamps: token, node, serial, payload hash), entries never change between invocations of non-streaming calls, no quorum function runs after its call returned; non-trivial (measured) = two calls overlapping in time on a shared node, or a reply produced after its call ended",
+		Rule:         "rapid-generated concurrent programs: one or two client managers (their message ids collide), 3-6 servers, up to 4 overlapping configurations, 2-8 threads issuing 6-60 calls of all kinds with unique tokens; handlers release at once and answer after generated delays up to 6 ms while calls carry cancellations/deadlines of 1 us - 5 ms (replies arrive long after the call ended), in half of the cases seeded jitter at the statement-level yield points of the instrumented runtime; oracle: every reply shown to any quorum function and every RPC result carries the call's own token, sits under the node that produced it and equals what that handler produced (stamps: token, node, serial, payload hash), entries never change between invocations of non-streaming calls, no quorum function runs after its call returned; non-trivial (measured) = two calls overlapping in time on a shared node, or a reply produced after its call ended",
 		Gen:          gen,
 		Run:          run,
 		TrackCurrent: true,
